@@ -128,6 +128,35 @@ Fixpoint find_split (opn : byte) (closers : list byte) (s : str) (i : nat) : opt
 Definition p_split (s : str) : option (nat * nat) := find_split x3e [x22] s 0.
 Definition o_split_from (s : str) (off : nat) : option (nat * nat) := find_split x5d [x2f; x22] s off.
 
+(* triple.Parse skips the quoted predicate id: number of bytes before the first double quote that is not preceded by a
+   backslash escape (the whole length when there is none; a trailing backslash "escapes" past the end, Go clamps) *)
+Fixpoint skip_quoted (s : str) : nat :=
+  match s with
+  | [] => O
+  | c :: r =>
+      if Byte.eqb c x22 then O
+      else if Byte.eqb c x5c then
+        match r with
+        | [] => 1
+        | _ :: r' => S (S (skip_quoted r'))
+        end
+      else S (skip_quoted r)
+  end.
+
+(* a quoted-string body in which every double quote is escaped and no escape is left open at the end *)
+Fixpoint escaped_ok (m : str) : bool :=
+  match m with
+  | [] => true
+  | c :: r =>
+      if Byte.eqb c x22 then false
+      else if Byte.eqb c x5c then
+        match r with
+        | [] => false
+        | _ :: r' => escaped_ok r'
+        end
+      else escaped_ok r
+  end.
+
 (* joining *)
 Fixpoint join (sep : str) (l : list str) : str :=
   match l with
